@@ -13,6 +13,7 @@ import Pastel.Order
 import Pastel.FloatFns
 import Pastel.Lemmas.Quantize
 import Pastel.Lemmas.HslMix
+import Pastel.Lemmas.HsvMix
 
 namespace Pastel.C07
 open Pastel Sc ScOrd
@@ -342,6 +343,62 @@ theorem mix_hsl_self (r g b : UInt8) (a1 a2 f : ℝ) :
     obtain ⟨k, hk⟩ := interpolateAngle_self (hueValue c1.hue) f
     exact ⟨j1 + k, by rw [hk, hj1]; push_cast; ring⟩
   obtain ⟨hx, hy, hz⟩ := channels_close c1 _ msat mlight s10 l10 l11 hcase
+  rw [f1] at hx hy hz
+  exact bytes_near _ r g b hx hy hz
+
+/-! ### HSV mixing of 8-bit colours, as bytes -/
+
+/-- **HSV mixing returns the operands' bytes at the end points** (exact arithmetic, every pair of
+8-bit colours): through the exact HSV round trip, the shorter-arc rule and the gray-hue rule (an
+operand whose HSV saturation is below the threshold has chroma below 10⁻⁴). -/
+theorem mix_hsv_endpoints (r1 g1 b1 r2 g2 b2 : UInt8) (a1 a2 : ℝ) :
+    bytes (mix .hsv (fromRgba8 r1 g1 b1 a1 : Color ℝ) (fromRgba8 r2 g2 b2 a2) 0) = (r1, g1, b1) ∧
+    bytes (mix .hsv (fromRgba8 r1 g1 b1 a1 : Color ℝ) (fromRgba8 r2 g2 b2 a2) 1) = (r2, g2, b2) := by
+  set c1 : Color ℝ := fromRgba8 r1 g1 b1 a1 with hc1
+  set c2 : Color ℝ := fromRgba8 r2 g2 b2 a2 with hc2
+  have v1 : C05.Valid c1 := C05.fromRgba8_valid _ _ _ _
+  have v2 : C05.Valid c2 := C05.fromRgba8_valid _ _ _ _
+  have f1 := fromRgba8_toRgbaFloat r1 g1 b1 a1
+  have f2 := fromRgba8_toRgbaFloat r2 g2 b2 a2
+  constructor
+  · obtain ⟨thr, hthr, mhue, msat, mlight⟩ := mix_hsv_fields c1 c2 0 (toHsva c1).x (toHsva c1).alpha
+    rw [interpolate_zero, interpolate_zero] at msat mlight
+    have hh : (toHsva c1).y < thr ∨ ∃ k : ℤ, (mix .hsv c1 c2 0).hue = (toHsva c1).x + 360 * k := by
+      rcases mixHue_zero_turns thr (toHsva c1).y (toHsva c1).x (toHsva c2).y (toHsva c2).x with h | ⟨k, hk⟩
+      · exact Or.inl h
+      · exact Or.inr ⟨k, by rw [mhue, hk]⟩
+    obtain ⟨hx, hy, hz⟩ := hsv_rebuilt_close c1 v1 _ thr hthr msat mlight hh
+    rw [f1] at hx hy hz
+    exact bytes_near _ r1 g1 b1 hx hy hz
+  · obtain ⟨thr, hthr, mhue, msat, mlight⟩ := mix_hsv_fields c1 c2 1 (toHsva c2).x (toHsva c2).alpha
+    rw [interpolate_one, interpolate_one] at msat mlight
+    have hh : (toHsva c2).y < thr ∨ ∃ k : ℤ, (mix .hsv c1 c2 1).hue = (toHsva c2).x + 360 * k := by
+      rcases mixHue_one_turns thr (toHsva c1).y (toHsva c1).x (toHsva c2).y (toHsva c2).x with h | ⟨k, hk⟩
+      · exact Or.inl h
+      · exact Or.inr ⟨k, by rw [mhue, hk]⟩
+    obtain ⟨hx, hy, hz⟩ := hsv_rebuilt_close c2 v2 _ thr hthr msat mlight hh
+    rw [f2] at hx hy hz
+    exact bytes_near _ r2 g2 b2 hx hy hz
+
+/-- **A colour mixed with itself in HSV keeps its bytes**, for every fraction. -/
+theorem mix_hsv_self (r g b : UInt8) (a1 a2 f : ℝ) :
+    bytes (mix .hsv (fromRgba8 r g b a1 : Color ℝ) (fromRgba8 r g b a2) f) = (r, g, b) := by
+  set c1 : Color ℝ := fromRgba8 r g b a1 with hc1
+  set c2 : Color ℝ := fromRgba8 r g b a2 with hc2
+  have v1 : C05.Valid c1 := C05.fromRgba8_valid _ _ _ _
+  have f1 := fromRgba8_toRgbaFloat r g b a1
+  have qx : (toHsva c2).x = (toHsva c1).x := rfl
+  have qy : (toHsva c2).y = (toHsva c1).y := rfl
+  have qz : (toHsva c2).z = (toHsva c1).z := rfl
+  obtain ⟨thr, hthr, mhue, msat, mlight⟩ := mix_hsv_fields c1 c2 f (toHsva c1).x (toHsva c1).alpha
+  rw [qy, qz, interpolate_self, interpolate_self] at msat mlight
+  have hh : (toHsva c1).y < thr ∨ ∃ k : ℤ, (mix .hsv c1 c2 f).hue = (toHsva c1).x + 360 * k := by
+    right
+    rw [mhue, qx, qy]
+    unfold mixHue
+    simp only [ite_self]
+    exact interpolateAngle_self _ f
+  obtain ⟨hx, hy, hz⟩ := hsv_rebuilt_close c1 v1 _ thr hthr msat mlight hh
   rw [f1] at hx hy hz
   exact bytes_near _ r g b hx hy hz
 
